@@ -64,8 +64,25 @@ class Activation:
         self.entry_value = node.value
 
 
+class _TappedPartial:
+    """Stands in for a functools.partial registry entry (keyword searcher): callable, exposes func / args / keywords,
+    has no __name__ (a partial has none either)."""
+
+    __slots__ = ("_call", "func", "args", "keywords", "__wrapped__")
+
+    def __init__(self, call, part):
+        self._call = call
+        self.func = part.func
+        self.args = part.args
+        self.keywords = part.keywords
+        self.__wrapped__ = part
+
+    def __call__(self, data):
+        return self._call(data)
+
+
 def decoder_name(f) -> str:
-    if isinstance(f, functools.partial):
+    if isinstance(f, (functools.partial, _TappedPartial)):
         if f.args and isinstance(f.args[0], str):
             return "kw:" + f.args[0]
         return "partial:" + getattr(f.func, "__name__", "?")
@@ -88,6 +105,10 @@ class Tap:
         self.calls: list[Call] = []
         self.acts: list[Activation] = []
         self.stack: list[Activation] = []
+        self.internal: list[InternalCall] = []  # decoder functions invoked from inside a registry call
+        self.inflight: list = []  # texts of the registry calls in progress
+        self.internal_depth = 0
+        self.passthrough = None
 
     def _wrap(self, idx, f):
         name = self.names[idx]
@@ -99,17 +120,28 @@ class Tap:
             tap.calls.append(call)
             if act is not None:
                 act.calls.append(call)
+            tap.inflight.append(data)
+            tap.passthrough = f  # if the registry entry is itself a module-level wrapper, this call is the engine's own
             try:
                 hits = f(data)
             except BaseException as e:  # noqa: BLE001 - recorded and re-raised
                 call.error = e
                 raise
+            finally:
+                tap.inflight.pop()
             if tap.record_hits:
                 call.hits = [HitSnap(h) for h in hits]
             return hits
 
-        tapped.__name__ = "tapped_" + name
-        tapped.__wrapped__ = f
+        # the wrapper must not be observable through introspection the engine (or a refactoring of it) may do on registry
+        # entries: functions keep their name / module / attributes, keyword searchers stay nameless partial-like objects
+        if isinstance(f, functools.partial):
+            return _TappedPartial(tapped, f)
+        try:
+            functools.update_wrapper(tapped, f)
+            tapped._vf_tapped = True
+        except (AttributeError, TypeError):
+            tapped.__wrapped__ = f
         return tapped
 
     def __enter__(self):
@@ -151,3 +183,54 @@ def install_activation_tap():
     scan_node.__wrapped__ = orig
     Multidecoder.scan_node = scan_node
     _installed = True
+
+
+# ---------------------------------------------------------------------------
+# internal-application tap: a registered decoder function invoked from inside another decoder call (through its module
+# global, not through the registry) is a decoder application the engine's depth accounting never sees.
+
+_internal_done: set = set()
+
+
+class InternalCall:
+    __slots__ = ("name", "data", "nesting", "act", "outer_data")
+
+    def __init__(self, name, data, nesting, act, outer_data):
+        self.name, self.data, self.nesting, self.act, self.outer_data = name, data, nesting, act, outer_data
+
+
+def install_internal_tap(functions) -> int:
+    """Replaces the module-level NAME of every given decoder function by a thin pass-through wrapper (registries keep
+    the function objects they captured, so calls made by the engine do not pass here). Calls are recorded on the Tap
+    that is current in this thread. Idempotent; returns the number of names wrapped in this process."""
+    import sys
+
+    for f in functions:
+        if isinstance(f, (functools.partial, _TappedPartial)) or not callable(f):
+            continue
+        f = getattr(f, "__wrapped__", f) if getattr(f, "_vf_tapped", False) else f
+        mod = sys.modules.get(getattr(f, "__module__", None))
+        name = getattr(f, "__name__", None)
+        if mod is None or name is None or (mod.__name__, name) in _internal_done or getattr(mod, name, None) is not f:
+            continue
+
+        def make(orig, label):
+            @functools.wraps(orig)
+            def inner(data, *a, **kw):
+                tap = getattr(_local, "tap", None)
+                if tap is None or not tap.inflight:
+                    return orig(data, *a, **kw)
+                if tap.passthrough is inner:
+                    tap.passthrough = None
+                    return orig(data, *a, **kw)
+                tap.internal_depth += 1
+                try:
+                    tap.internal.append(InternalCall(label, data, tap.internal_depth, tap.stack[-1] if tap.stack else None, tap.inflight[-1]))
+                    return orig(data, *a, **kw)
+                finally:
+                    tap.internal_depth -= 1
+            return inner
+
+        setattr(mod, name, make(f, name))
+        _internal_done.add((mod.__name__, name))
+    return len(_internal_done)
